@@ -6,6 +6,7 @@ package environment
 
 import (
 	"errors"
+	"strings"
 
 	"github.com/AliceO2Group/Control/core/task"
 	"github.com/AliceO2Group/Control/core/workflow/callable"
@@ -39,6 +40,7 @@ const c01Opts = "stub=github.com/AliceO2Group/Control/common/utils.TimeTrack"
 // One request from any state, with every combination of failing task transition, failing critical
 // before-hook and failing run-number allocation: the state changes only along the documented graph; an
 // illegal request executes nothing.
+//
 //verif:entry HarnessOneRequestFromAnyState unwind=64 reach=moved,cancelled,illegal,norunnumber stub=github.com/AliceO2Group/Control/common/utils.TimeTrack
 func HarnessOneRequestFromAnyState() {
 	pre := c01States[vrt.IntRange("state", 0, len(c01States)-1)]
@@ -94,6 +96,7 @@ func HarnessOneRequestFromAnyState() {
 }
 
 // Two callers at once: transitions are executed one after the other, each seeing the state the other left.
+//
 //verif:entry HarnessConcurrentRequests unwind=64 preempt=2 reach=both stub=github.com/AliceO2Group/Control/common/utils.TimeTrack nosched=github.com/AliceO2Group/Control/core/the.mu
 //verif:thorough HarnessConcurrentRequests preempt=3
 func HarnessConcurrentRequests() {
@@ -121,15 +124,62 @@ func HarnessConcurrentRequests() {
 	var okA, okB bool
 	switch second {
 	case "START_ACTIVITY":
-		okA = e1 == nil && e2 == nil && post == "RUNNING"      // CONFIGURE; START
-		okB = e1 == nil && e2 != nil && post == "CONFIGURED"   // START refused in DEPLOYED; CONFIGURE
+		okA = e1 == nil && e2 == nil && post == "RUNNING"    // CONFIGURE; START
+		okB = e1 == nil && e2 != nil && post == "CONFIGURED" // START refused in DEPLOYED; CONFIGURE
 	case "RESET":
-		okA = e1 == nil && e2 == nil && post == "DEPLOYED"     // CONFIGURE; RESET
-		okB = e1 == nil && e2 != nil && post == "CONFIGURED"   // RESET refused in DEPLOYED; CONFIGURE
+		okA = e1 == nil && e2 == nil && post == "DEPLOYED"   // CONFIGURE; RESET
+		okB = e1 == nil && e2 != nil && post == "CONFIGURED" // RESET refused in DEPLOYED; CONFIGURE
 	case "CONFIGURE":
 		okA = (e1 == nil) != (e2 == nil) && post == "CONFIGURED" // exactly one of the two succeeds
 		okB = okA
 	}
 	vrt.Assert(okA || okB, "concurrent-requests-behave-as-some-sequential-order")
 	vrt.Reach("both")
+}
+
+// Two callers at once, each transition with hooks before and after it, the hooks after the state change taking an
+// arbitrary time: everything the second transition does (its hooks, its task part) happens after everything the
+// first one does - also after its enter_/after_ hooks, which run when the state has already changed.
+//
+//verif:entry HarnessTransitionsDoNotOverlap unwind=64 preempt=2 reach=serialised stub=github.com/AliceO2Group/Control/common/utils.TimeTrack nosched=github.com/AliceO2Group/Control/core/the.mu
+func HarnessTransitionsDoNotOverlap() {
+	rec := &fenvRec{}
+	second := []string{"RESET", "START_ACTIVITY"}[vrt.IntRange("second", 0, 1)]
+	rec.onCall = func(c *callable.Call) error {
+		if strings.Contains(c.GetName(), "after_") {
+			vrt.Yield() // takes a while
+		}
+		return nil
+	}
+	var hooks []fenvHook
+	for _, ev := range []string{"CONFIGURE", second} {
+		hooks = append(hooks, fenvHook{name: "before_" + ev, trigger: "before_" + ev}, fenvHook{name: "after_" + ev, trigger: "after_" + ev})
+	}
+	env := fenvNew(&fenvConf{}, rec, "DEPLOYED", hooks)
+	r1, r2 := make(chan error, 1), make(chan error, 1)
+	go func() { r1 <- env.TryTransition(fenvTransition{name: "CONFIGURE", rec: rec}) }()
+	go func() { r2 <- env.TryTransition(fenvTransition{name: second, rec: rec}) }()
+	<-r1
+	<-r2
+	span := func(ev string) (int, int) {
+		first, last := -1, -1
+		rec.mu.Lock()
+		defer rec.mu.Unlock()
+		for i, x := range rec.trace {
+			if strings.Contains(x, ev) {
+				if first < 0 {
+					first = i
+				}
+				last = i
+			}
+		}
+		return first, last
+	}
+	a0, a1 := span("CONFIGURE")
+	b0, b1 := span(second)
+	vrt.Assert(a0 >= 0, "configure-was-executed")
+	if b0 >= 0 { // (the second request is refused without a trace when it comes first)
+		vrt.Assert(a1 < b0 || b1 < a0, "at-most-one-transition-in-progress")
+	}
+	vrt.Reach("serialised")
 }
